@@ -795,8 +795,13 @@ func (ot *objectTree) Delete() error {
 	if ot.isDeleted {
 		return nil
 	}
+	// mark the tree deleted only once its storage is gone: a failed delete must stay
+	// retryable, otherwise the next Delete reports success while the changes remain stored
+	if err := ot.storage.Delete(context.Background()); err != nil {
+		return err
+	}
 	ot.isDeleted = true
-	return ot.storage.Delete(context.Background())
+	return nil
 }
 
 func (ot *objectTree) SnapshotPath() ([]string, error) {
